@@ -566,7 +566,7 @@ for _q in ("exp", "tanh", "log", "sqrt"):
     SIGS[f"math.{_q}"] = (("a",), {})
 for _q in ("exp log log1p expm1 abs sign tanh arctanh sqrt isnan isfinite negative square "
            "reciprocal logical_not sort ravel argmin argmax shape size ndim "
-           "transpose diag_indices cosh sinh cos sin arcsinh arccosh floor ceil round").split():
+           "transpose diag_indices cosh sinh cos sin arcsinh arccosh floor ceil round cbrt").split():
     _sig(f"jax.numpy.{_q}", "a")
 _sig("jax.numpy.asarray", "a dtype", dtype=None)
 _sig("jax.numpy.array", "a dtype", dtype=None)
